@@ -417,6 +417,20 @@ def directed_refusals(ctx):
         for vop, cause in cand:
             for pos in (len(base), len(base) - 1):
                 judge(ctx, cfg, base, res, h0, pos, vop, 'directed/' + cause)
+        # with UDF the volume descriptors have to fit in front of extent 32: once they fill that room, one more copy of
+        # the PVD must be refused (and change nothing), not accepted and then fail at write time
+        full = None
+        for k in range(14, 0, -1):
+            b2 = base + [{'op': 'duppvd'}] * k
+            img2, res2, err2 = image_of(cfg, b2)
+            if not err2 and all(r == 'ok' for r in res2):
+                full = (b2, res2, hashlib.sha256(img2).hexdigest())
+                break
+            if err2 and all(r == 'ok' for r in res2):
+                ctx.violation('C14.accepted-then-unwritable/duppvd', '%d accepted duplicate_pvd() calls on a UDF image, then the write fails: %s' % (k, err2),
+                              {'kind': 'history', 'cfg': cfg, 'ops': b2, 'pos': len(b2) - 1, 'cause': 'duppvd/no-room'})
+        if full is not None:
+            judge(ctx, cfg, full[0], full[1], full[2], len(full[0]), {'op': 'duppvd'}, 'directed/duppvd/no-room-before-udf')
 
 
 def check_atomic(ctx):
